@@ -219,6 +219,7 @@ def wrapper_checks(m, ent, sname, lab, tier, out):
             # explicit arity (Form.block inspects the signature)
             names = [f'u{i}' for i in range(nc)] + [f'v{i}' for i in range(nc)] + ['w']
             form = eval(f"lambda {', '.join(names)}: _f({', '.join(names)})", {'_f': _form})
+            form_cx = eval(f"lambda {', '.join(names)}: _f({', '.join(names)}) * (1.0 + 2.0j)", {'_f': _form})
         try:
             A = BilinearForm(form).assemble(bb_).toarray()
         except Exception as e:
@@ -252,6 +253,13 @@ def wrapper_checks(m, ent, sname, lab, tier, out):
         if okb and not isvec and nc >= 2 and mk_label == 'cells':
             try:
                 F = BilinearForm(form)
+                # a block of a complex-valued form is complex-valued too (dtype, thread count, ... are inherited)
+                Fc = BilinearForm(form_cx, dtype=np.complex128)
+                Bc = Fc.block(0, nc - 1).assemble(comps[0], comps[nc - 1]).toarray()
+                wc = A[np.ix_(ixs[nc - 1], ixs[0])] * (1.0 + 2.0j)
+                if Bc.shape != wc.shape or np.abs(Bc - wc).max() > 1e-11 * (1 + np.abs(A).max()):
+                    bad('form-block-complex', f"block(0, {nc - 1}) of a complex-valued form differs from (1+2j) times the block of the "
+                        f"real form (imaginary part lost?)")
                 for a in range(nc):
                     for c in range(nc):
                         # block(c, a) is a form for the component bases: trial component c, test component a
@@ -522,6 +530,16 @@ def coodata_checks(m, sname, lab, out):
         s2 = (el + el)
         if np.abs(s2.toarray() - 2 * Ad).max() > 1e-12 * sc:
             bad('add', f"{lbl}: el + el differs from 2 A")
+        # per-cell matrices of a SUM: either refused (the library cannot know the layout of concatenated data) or the per-cell
+        # matrices of the sum; never silently something else
+        try:
+            l2 = s2.tolocal()
+            if l2.shape != loc.shape or np.abs(l2 - 2 * loc).max() > 1e-12 * sc:
+                bad('add-tolocal', f"{lbl}: (el + el).tolocal() returns per-cell matrices that are not twice those of el")
+        except NotImplementedError:
+            out.count('tolocal_of_a_sum_refused')
+        except Exception as e:
+            bad('add-tolocal-exception', repr(e))
         out.nt((sname, lab, lbl))
     # inverse of elementwise (block diagonal) mass matrices
     edg = E.ElementDG(eu())
@@ -533,6 +551,14 @@ def coodata_checks(m, sname, lab, out):
     out.ev()
     if np.abs(Minv @ Md - np.eye(db.N)).max() > 1e-9:
         bad('inverse', "COOData.inverse() of a block-diagonal (DG) mass matrix is not its inverse")
+    try:
+        Sinv = (Mel + Mel).inverse().toarray()
+        if np.abs(Sinv @ (2 * Md) - np.eye(db.N)).max() > 1e-9:
+            bad('add-inverse', "(M + M).inverse() of elemental mass data is not the inverse of 2 M")
+    except NotImplementedError:
+        out.count('inverse_of_a_sum_refused')
+    except Exception as e:
+        bad('add-inverse-exception', repr(e))
     # facet tolocal(basis): sums facet matrices into elemental matrices
     if kind != 'wedge':
         fb = FacetBasis(m, ev(), intorder=4)
